@@ -28,6 +28,15 @@ def pad_slice_path(path1, path2):
     return path2
 
 
+def _copy_containers(inp):
+    """copy of nested dictionaries, lists and tuples, the values themselves are kept"""
+    if isinstance(inp, dict):
+        return {k: _copy_containers(v) for k, v in inp.items()}
+    if isinstance(inp, (list, tuple)):
+        return type(inp)(_copy_containers(v) for v in inp)
+    return inp
+
+
 class BaseGeo(BaseTransform):
     """Initializes position and orientation properties
     of an object in a global CS.
@@ -83,9 +92,12 @@ class BaseGeo(BaseTransform):
 
     @staticmethod
     def _process_style_kwargs(style=None, **kwargs):
+        if isinstance(style, dict):
+            # the style is applied when it is first needed: keep the values as they are now,
+            # independent of what the caller does with the dictionary afterwards
+            style = _copy_containers(style)
         if kwargs:
-            # merge into a copy, the style dictionary of the caller stays as it is
-            style = {} if style is None else dict(style)
+            style = {} if style is None else style
             style_kwargs = {}
             for k, v in kwargs.items():
                 if k.startswith("style_"):
